@@ -9,7 +9,7 @@ META = dict(
   level_note='Per obligation the precision is a concrete value (listed); std::pow/std::ilogb are table contracts validated natively every run; what the integer engine does with its inputs is the subject of the other properties. BuildPathsD/BuildTreeD node-for-node shape and MinkowskiSum/Diff, RectClip, TrimCollinear PathsD overloads are not covered yet.',
   functions=['BooleanOp(PathsD)', 'ClipperD::ClipperD', 'ClipperD::AddSubject/AddClip', 'ClipperD::Execute', 'ScalePaths<long,double>', 'ScalePath<long,double>', 'Point<long>::Init<double> (std::round)', 'InflatePaths(PathsD)', 'ScalePaths<double,long>'],
   assumptions=['finite doubles, |coordinate| < 1e9 (BooleanOp) / 1e6 (InflatePaths)', 'precisions checked: see obligations'],
-  outside=['PolyTreeD shape', 'Minkowski / RectClip / RectClipLines / TrimCollinear PathsD overloads', 'precisions other than those listed'],
+  outside=['PolyTreeD shape beyond the one concrete geometry of C16.c', 'Minkowski / RectClip / RectClipLines / TrimCollinear PathsD overloads', 'precisions other than those listed'],
 )
 OBLIGATIONS = []
 for p in (2, 0, -2, 8):
@@ -22,3 +22,5 @@ for p in (2, 0, -3):
                          desc='InflatePaths(PathsD): coordinates, delta and arc tolerance scaled by 10^p; miter limit unscaled; result descaled'))
 OBLIGATIONS.append(O('C16.a-scalepaths-round', 'c11_args.cpp', 'harness_scalepaths_range', unwind=4, backend=['cadical', 'kissat'], tiers='t', timeout=900,
                      bound='1 path x 2 points, all finite doubles, scale 100', desc='ScalePaths<int64,double> == round-to-nearest(x*scale) elementwise, or range error'))
+OBLIGATIONS.append(O('C16.c-treed-shape', 'c11_args.cpp', 'harness_treed_shape', replace=MATH, unwind=19, timeout=1800, object_bits=16, tiers='t',
+                     bound='self-intersecting pentagon (4,1 3,0 8,8 11,4 0,8)/2, Union EvenOdd, precision 0', desc='PolyTreeD of the input == PolyTree64 of the scaled input, node for node (same counts, same polygons descaled)'))
